@@ -82,6 +82,10 @@ func c06Fixed(c *ev.Ctx) {
 		{"foreach-var-restored", `function f(x){ foreach x in [7,8] { y = x; } return x; } return f(1);`, "INTEGER:1"},
 		{"return-inside-foreach-in-function", `function f(){ foreach e in [1,2,3] { if (e == 2) { return e; } } return 0; } a = f(); b = f(); return [a, b, e];`, "ARRAY:[2, 2, null]"},
 		{"nested-same-name-loop-vars", `r = ""; foreach x in "ab" { foreach x in "cd" { r = r + x; } r = r + x; } return r;`, "STRING:cdacdb"},
+		{"return-from-two-nested-loops-in-function", `function f(a){ foreach x in [1,2] { foreach y in [3,4] { if (y == 4) { return a + x; } } } return 0; } a = 100; x = "gx"; r = f(1); return [a, x, r, y];`, "ARRAY:[100, gx, 2, null]"},
+		{"return-from-three-nested-loops-in-function", `function f(a){ foreach x in "ab" { foreach y in 1..2 { foreach z in {"k": 1} { return z + a; } } } return 0; } a = 5; r = f(10); s = f(20); return [a, r, s];`, "ARRAY:[5, 11, 21]"},
+		{"error-inside-two-nested-loops-in-function", `function f(a){ foreach x in [1] { foreach y in [2] { if (Bad) { return 1 / Zero; } } } return a; } a = 7; r = f(8); return [a, r];`, "ARRAY:[7, 8]"},
+		{"assignment-to-global-after-nested-return", `function f(a){ foreach x in [1,2] { foreach y in [3,4] { return 1; } } return 0; } a = 1; f(5); a = 2; return a;`, "INTEGER:2"},
 		{"mutual-params", `function f(a){ return g(a+1) + a; } function g(a){ return a * 10; } return f(1);`, "INTEGER:21"},
 	}
 	for _, tc := range cases {
